@@ -43,15 +43,20 @@ pub enum Api {
     Default = 2,
     /// `x.display(&mut sim_writer, FormatOption::new(rec_span, rec_marker, rec_number))`
     Custom = 3,
+    /// custom option whose callbacks DECORATE what they are given (`{text}`, `[marker]`, `<number>`), i.e. write a different
+    /// number of cells than they received, as a colouring option does: only "returns", the sequence of line numbers handed to
+    /// the number callback and the texts handed to the span callback are judged
+    Decor = 4,
 }
 impl Api {
-    pub const ALL: [Api; 4] = [Api::ToString, Api::WriteMacro, Api::Default, Api::Custom];
+    pub const ALL: [Api; 5] = [Api::ToString, Api::WriteMacro, Api::Default, Api::Custom, Api::Decor];
     pub fn name(&self) -> &'static str {
         match self {
             Api::ToString => "to_string",
             Api::WriteMacro => "write_macro",
             Api::Default => "display_default",
             Api::Custom => "custom",
+            Api::Decor => "custom_decorating",
         }
     }
     pub fn from_name(s: &str) -> Option<Api> {
@@ -192,6 +197,27 @@ impl SimWriter {
     fn hit(&self, channel: u8, count: usize) -> bool {
         self.plan.channel == channel && (count == self.plan.index || (self.plan.sticky && count > self.plan.index))
     }
+    fn callback_decor(&mut self, ch: usize, s: &str) -> fmt::Result {
+        let (l, r) = [("{", "}"), ("[", "]"), ("<", ">")][ch];
+        let decorated = format!("\u{1b}[3{}m{l}{s}{r}\u{1b}[0m", ch + 1);
+        // same fault points as the plain recording callback, the text written differs
+        self.tick();
+        self.cb_calls[ch] += 1;
+        self.events.push(Event { channel: ch as u8, text: s.to_string(), row: self.rows, out_len: self.out.len() });
+        let hit = self.hit(ch as u8, self.cb_calls[ch]);
+        if hit && !self.plan.cb_after_write {
+            self.cb_faults_fired[ch] += 1;
+            self.first_error_at.get_or_insert(self.out.len());
+            return Err(fmt::Error);
+        }
+        self.write_str(&decorated)?;
+        if hit {
+            self.cb_faults_fired[ch] += 1;
+            self.first_error_at.get_or_insert(self.out.len());
+            return Err(fmt::Error);
+        }
+        Ok(())
+    }
     fn callback(&mut self, ch: usize, s: &str) -> fmt::Result {
         self.tick();
         self.cb_calls[ch] += 1;
@@ -276,6 +302,17 @@ pub fn execute(c: &Case, api: Api, plan: &Plan) -> Exec {
                     |s: &str, w: &mut SimWriter| w.callback(0, s),
                     |s: &str, w: &mut SimWriter| w.callback(1, s),
                     |s: &str, w: &mut SimWriter| w.callback(2, s),
+                );
+                match &obj {
+                    Obj::S(s) => s.display(&mut w, opt).map(|_| None),
+                    Obj::P(p) => p.display(&mut w, opt).map(|_| None),
+                }
+            }
+            Api::Decor => {
+                let opt = FormatOption::new::<SimWriter>(
+                    |s: &str, w: &mut SimWriter| w.callback_decor(0, s),
+                    |s: &str, w: &mut SimWriter| w.callback_decor(1, s),
+                    |s: &str, w: &mut SimWriter| w.callback_decor(2, s),
                 );
                 match &obj {
                     Obj::S(s) => s.display(&mut w, opt).map(|_| None),
